@@ -30,6 +30,8 @@ ModLists(ab) ==
   \cup (IF "@y" \in Names(ab) THEN {<<A("@y")>>, <<A("@s"), A("@y")>>, <<A("@y"), K("LEFTALT"), A("@s")>>} ELSE {})
   \cup (IF "@m" \in Names(ab) THEN {<<A("@m")>>, <<A("@m"), A("@s")>>} ELSE {})
   \cup (IF "@r" \in Names(ab) THEN {<<A("@r")>>, <<A("@r"), A("@s"), A("@y")>>, <<A("@s"), A("@r")>>} ELSE {})
+  \* three alias modifiers, each with two definitions (the combination counter needs three digits to go wrong)
+  \cup (IF "@s" \in Names(ab) /\ "@y" \in Names(ab) THEN {<<A("@s"), A("@y"), A("@s")>>, <<A("@y"), A("@s"), K("LEFTCTRL"), A("@y")>>} ELSE {})
 AliasIn(ml) == {ml[i]: i \in {j \in 1..Len(ml): ml[j].alias}}
 ToMods(ml) == {<<>>, <<K("RIGHTALT")>>} \cup {<<a>>: a \in AliasIn(ml)}
             \cup (IF Size >= 2 THEN {<<a, K("LEFTMETA")>>: a \in AliasIn(ml)} ELSE {})
@@ -62,6 +64,10 @@ Positions == IF Size >= 2 THEN {1, 5, 10, 11} ELSE {1, 10}
 CharProgs ==
   {<< [ty |-> "row", mods |-> ml, row |-> r, tomods |-> <<>>, letters |-> PadTo(n, c), rep |-> Normal, abs |-> <<>>] >>:
      ml \in {<<>>, <<K("RIGHTSHIFT")>>}, r \in {"`","1","Q","A","Z"}, n \in Positions, c \in Printable \cup {" "}}
+  \* both Shift keys on the trigger side, in either order: right Shift wins whenever the trigger contains it
+  \cup {<< [ty |-> "row", mods |-> ml, row |-> r, tomods |-> <<>>, letters |-> PadTo(2, c), rep |-> rp, abs |-> <<>>] >>:
+     ml \in {<<K("LEFTSHIFT"), K("RIGHTSHIFT")>>, <<K("RIGHTSHIFT"), K("LEFTSHIFT")>>}, r \in {"1", "A"}, c \in {"A", "a", "!", ";", "|"},
+     rp \in {Normal, [kind |-> "Special", tomods |-> <<>>, letters |-> <<" ", "B">>, delay |-> 50, interval |-> 30]}}
 
 Progs1 == UNION {{ab \o <<it>>: it \in Singles(ab) \cup Rows(ab) \cup RepOnlys(ab)}: ab \in AliasBlocks}
 \* a mapping followed by a repeat-only entry (same or different trigger set, alias order swapped)
